@@ -4,6 +4,7 @@ model (no hypothesis on closeness needed), fold invariants of patches / faces / 
 -/
 import CBV.Lemmas.C06
 import CBV.Lemmas.C05
+import CBV.Gen.TC06
 
 set_option linter.unusedSectionVars false
 
